@@ -5,7 +5,8 @@ binding was stored, unless the stored topic compared equal; a new binding is sto
 negotiated Topic Alias Maximum, whose origin is traced to the negotiated value; the alias maps are
 per-connection objects (no statics, constructed in the per-connection constructors); the router
 matches on the resolved topic and consults its cache only for empty topics. Sequences of publishes
-as such are not decided."""
+as such are not decided. bind (continued): the v5 client's enforced limit is not taken from CONNACK.topic_alias_max (that value limits the other direction).
+"""
 from facts import *
 from disp import *
 
@@ -203,6 +204,28 @@ def alias_rules(F, R, d):
                             work_.append(op_place(dd_[3]['rv']['op']))
         R.ob('C17.bind', 'v5-client|max_topic_alias|not-the-CONNACK-value', not wrong_dir,
              'the limit enforced on aliases the server uses towards this client is taken from CONNACK.topic_alias_max, which limits the other direction: %s' % wrong_dir[:2])
+        # ... and it is: Client::new receives CONNECT.topic_alias_max (read before the packet is moved into the encoder)
+        ci = F.one(r'^v5::client::connector::MqttConnectorService::<A, T>::connect_inner::\{closure#0\}$')
+        from_connect = False
+        for cbi, ct in ci.calls_to(r'^v5::client::connection::Client::new$'):
+            for a in ct['args']:
+                pl0 = op_place(a)
+                if pl0 is None or ci.local_ty(pl0['l']) != 'u16':
+                    continue
+                work_, seen_ = [pl0], set()
+                while work_ and len(seen_) < 30:
+                    q = work_.pop()
+                    for e in place_proj(q):
+                        if isinstance(e, dict) and e.get('f') == 'topic_alias_max' and (e.get('adt') or '').endswith('connect::Connect'):
+                            from_connect = True
+                    if q['l'] in seen_:
+                        continue
+                    seen_.add(q['l'])
+                    for dd_ in ci.whole_defs(q['l']):
+                        if dd_[2] == 'assign' and dd_[3]['rv']['k'] in ('use', 'cast') and op_place(dd_[3]['rv']['op']) is not None:
+                            work_.append(op_place(dd_[3]['rv']['op']))
+        R.ob('C17.bind', 'v5-client|max_topic_alias|is-CONNECT.topic_alias_max', from_connect,
+             'the limit handed to the client object is not the Topic Alias Maximum of the CONNECT packet the client sent')
         R.floor('C17.bind', 'client create_dispatcher call sites (u16 limit args)', n, 1)
         R.ob('C17.bind', 'v5-client|max_topic_alias|negotiated-origin', not lits and n > 0, 'all callers pass a value derived from the CONNECT packet')
         for v, locs in sorted(lits.items()):
